@@ -1,4 +1,4 @@
 CONSTANTS SegMax = 127  NodeId = 1  Part = 0  NParts = 1
-CONSTANT Dict <- MCDict  Scens <- ScenUlT
+CONSTANT Dict <- MCDict  Scens <- Sc_C03_scen_t  PreObj <- MCPreObj
 INIT Init
 NEXT Next
